@@ -34,7 +34,7 @@ import (
 // plus a fixed 24 MiB.
 func init() {
 	Register(&Scenario{Prop: "C05", Desc: "hostile packet bodies: no crash, no decode panic, no hang, bounded allocation", Run: runC05,
-		Quick: 1200, Thorough: 400000, Crash: true,
+		Quick: 4000, Thorough: 1500000, Crash: true,
 		Real:  "netmc read loop, codec.Decoder, every registered packet's Decode for the chosen (state, direction, protocol)",
 		Model: "hostile peer over simnet (segmentation); recording session handler; captured gate log"})
 }
@@ -45,7 +45,7 @@ func runC05(r *Run) {
 	if r.W.Pick(2) == 1 {
 		dir = proto.ClientBound
 	}
-	states := []*state.Registry{state.Handshake, state.Status, state.Login, state.Config, state.Play, state.Play, state.Play}
+	states := []*state.Registry{state.Handshake, state.Status, state.Login, state.Config, state.Config, state.Play, state.Play, state.Play}
 	st := states[r.W.Pick(len(states))]
 	prots := []proto.Protocol{version.Minecraft_1_7_2.Protocol, version.Minecraft_1_8.Protocol, version.Minecraft_1_12_2.Protocol, version.Minecraft_1_13.Protocol, version.Minecraft_1_16_4.Protocol,
 		version.Minecraft_1_19.Protocol, version.Minecraft_1_19_1.Protocol, version.Minecraft_1_19_3.Protocol, version.Minecraft_1_20_2.Protocol, version.Minecraft_1_20_3.Protocol,
@@ -83,7 +83,7 @@ func runC05(r *Run) {
 		}
 		var body []byte
 		kind := ""
-		switch r.W.Pick(6) {
+		switch r.W.Pick(7) {
 		case 0:
 			kind = "random"
 			body = genFixed(r, []int{0, 1, 5, 64, 1000, 20000}[r.W.Pick(6)])
@@ -96,6 +96,51 @@ func runC05(r *Run) {
 			body = append(mcpeer.AppendVarInt(nil, n), genFixed(r, r.W.Pick(12))...)
 			if r.W.Pick(2) == 0 { // behind a plausible leading field
 				body = append((&mcpeer.W{}).String("ab").B, body...)
+			}
+		case 3:
+			// a small command graph (literals, redirects, cycles, dangling indices): only
+			// meaningful for AvailableCommands, random bytes for everything else
+			kind = "command-graph"
+			w := &mcpeer.W{}
+			n := 1 + r.W.Pick(4)
+			w.VarInt(int32(n))
+			for k := 0; k < n; k++ {
+				typ := byte(1) // literal
+				if k == 0 && r.W.Pick(4) != 0 {
+					typ = 0 // root
+				}
+				flags := typ
+				if r.W.Pick(2) == 0 {
+					flags |= 0x04
+				}
+				redirect := typ == 1 && r.W.Pick(2) == 0
+				if redirect {
+					flags |= 0x08
+				}
+				w.Byte(flags)
+				nc := r.W.Pick(3)
+				w.VarInt(int32(nc))
+				for c := 0; c < nc; c++ {
+					w.VarInt(int32(r.W.Pick(n + 1))) // may dangle
+				}
+				if redirect {
+					w.VarInt(int32(r.W.Pick(n + 1))) // may point at itself
+				}
+				if typ == 1 {
+					w.String(fmt.Sprintf("c%d", k))
+				}
+			}
+			w.VarInt(int32(r.W.Pick(n)))
+			body = w.B
+			if t, ok := reg.PacketIDs[proto.PacketID(id)]; ok && strings.Contains(fmt.Sprint(t), "AvailableCommands") {
+				r.Probe("command_graph_sent_to_AvailableCommands")
+			} else if dir == proto.ClientBound && st == state.Play && r.W.Pick(2) == 0 {
+				for pid, t := range reg.PacketIDs {
+					if strings.Contains(fmt.Sprint(t), "AvailableCommands") {
+						id = int(pid)
+						r.Probe("command_graph_sent_to_AvailableCommands")
+					}
+				}
 			}
 		default:
 			kind = "mutated-valid"
